@@ -2,7 +2,7 @@
    Only statements here; every proof is [exact <lemma of Proofs/C20.v>].
    [reachable st] = st is the state after some history of requests and time passages from the empty directory. *)
 From Coq Require Import String.
-From Verif Require Import Lib.Py Lib.Tactics Model.C20Str Model.C20 Proofs.C20Dict Proofs.C20Up Proofs.C20 Proofs.C20More.
+From Verif Require Import Lib.Py Lib.Tactics Model.C20Str Model.C20 Model.C20Spec Proofs.C20Dict Proofs.C20Up Proofs.C20 Proofs.C20More Proofs.C20RefA Proofs.C20Refine.
 Open Scope Z_scope.
 
 (* after every history the index invariant holds and no lifetime timer is overdue *)
@@ -93,16 +93,18 @@ Theorem C20_lookup_exact : forall st, reachable st ->
 Proof. exact lookup_exact_reachable. Qed.
 Print Assumptions C20_lookup_exact.
 
-(* an endpoint lookup with a single criterion k=v lists exactly the live registrations satisfying that criterion, in index order
-   (or fails as the criterion's evaluation fails) *)
-Theorem C20_lookup_single_criterion : forall st s k v, split_eq s = (k, v) -> is_paging k = false ->
-  ep_lookup st [s] None =
-  match filter_m (ep_stage k (make_matcher v, in_strs k ["if"; "rt"]%string) (if String.eqb k "href" then SHref else SGeneric)) (get_endpoints st) with
-  | Ok l => Content (str_links (map get_host_link l))
-  | Raise e => lookup_error e
-  end.
-Proof. exact ep_lookup_single_lemma. Qed.
-Print Assumptions C20_lookup_single_criterion.
+(* lookups with any list of criteria (212d645): the candidates are exactly the live registrations (resp. the links of live
+   registrations) satisfying ALL criteria, in index order; pagination is applied to that list, last *)
+Theorem C20_lookup_all_criteria : forall st qs accept, reachable st ->
+  let q := query_split qs in
+  let eps := filter (fun r => forallb (fun c => ep_keep c r) (criteria_of q)) (get_endpoints st) in
+  let links := filter (fun ec => forallb (fun c => res_keep c ec) (criteria_of q)) (res_pairs (get_endpoints st)) in
+  (forall r, In r eps <-> live_reg st r /\ forall c, In c (criteria_of q) -> ep_keep c r = true) /\
+  (forall e l, In (e, l) links <-> live_reg st e /\ In l (get_based_links e) /\ forall c, In c (criteria_of q) -> res_keep c (e, l) = true) /\
+  ep_lookup st qs accept = match _paginate eps q with Raise e => Err e | Ok l => link_format_to_message accept (map get_host_link l) end /\
+  res_lookup st qs accept = match _paginate (map snd links) q with Raise e => Err e | Ok l => link_format_to_message accept (map strip_anchor l) end.
+Proof. exact lookup_all_criteria_reachable. Qed.
+Print Assumptions C20_lookup_all_criteria.
 
 (* every error answer to a registration, update, removal or registration-resource read is a 4.xx and leaves the directory
    unchanged (no 5.00 from these handlers in any reachable state) *)
@@ -122,6 +124,40 @@ Theorem C20_lookups_never_5xx : forall st q accept,
   (forall e, ep_lookup st q accept = Err e -> e = BadRequest) /\ (forall e, res_lookup st q accept = Err e -> e = BadRequest).
 Proof. exact lookups_never_5xx. Qed.
 Print Assumptions C20_lookups_never_5xx.
+
+(* ---- REFINEMENT to the abstract directory of Model/C20Spec.v: a list of entries (ep, d) -> location, lt, base, parameters,
+   links, instant of the latest successful write; changed only in the success branches of [d_step], an entry dropped once
+   [written + lt + grace] has passed; no heap, no indexes, no timers. [abs] reads the entries off the concrete state. *)
+
+(* every request and every passage of time commutes with abs and is answered as the abstract directory answers *)
+Theorem C20_refinement_step : forall st o, reachable st -> nonneg_time o ->
+  d_step (abs st) o = (abs (fst (step st o)), snd (step st o)).
+Proof. exact refinement_step_reachable. Qed.
+Print Assumptions C20_refinement_step.
+
+(* THE PROPERTY AS ONE THEOREM, for every history of registrations, re-registrations, updates, removals, lookups and lifetime
+   expiries (time never runs backwards): all answers are the abstract directory's answers, the state abstracts to its state, and
+   the endpoint and resource lookups render exactly its entries — each within [latest successful write + lt + grace], with the
+   links and parameters of that write, at most one per (ep, d), no two sharing a location *)
+Theorem C20_refinement : forall ops, Forall nonneg_time ops ->
+  let st := run_state empty_rd ops in
+  let d := d_run_state empty_dir ops in
+  map o_resp (run empty_rd ops) = d_run empty_dir ops /\
+  abs st = d /\
+  ep_lookup st [] None = Content (str_links (map (fun e => get_host_link (reg_of_entry e)) (d_entries d))) /\
+  res_lookup st [] None = Content (str_links (map strip_anchor (flat_map (fun e => get_based_links (reg_of_entry e)) (d_entries d)))) /\
+  Forall (fun e => d_now d < e_written e + (e_lt e + GRACE_PERIOD) * 1000000) (d_entries d) /\
+  NoDup (map e_key (d_entries d)) /\ NoDup (map e_loc (d_entries d)).
+Proof. exact refinement_all_histories. Qed.
+Print Assumptions C20_refinement.
+
+(* on the abstract directory itself: a request answered 4.xx leaves it unchanged; after every event all entries are alive *)
+Theorem C20_spec_failed_request_keeps_directory : forall d o d' r, all_alive d -> d_step d o = (d', r) -> is_4xx r = true -> d' = d.
+Proof. exact d_failed_unchanged. Qed.
+Print Assumptions C20_spec_failed_request_keeps_directory.
+Theorem C20_spec_entries_alive : forall d o, all_alive (fst (d_step d o)).
+Proof. exact d_step_alive. Qed.
+Print Assumptions C20_spec_entries_alive.
 
 (* ---- non-vacuity and witnesses (all by computation) *)
 Definition lf (ls : list link) : body := {| b_cf := Some 40; b_payload := PLinks ls |}.
@@ -148,6 +184,13 @@ Example C20_demo_expiry :
   idx_by_key (fst (step (run_state empty_rd demo) (Advance 1))) = [("b", Some "x", 2, 90000)]%string /\
   o_resp (last (run empty_rd (demo ++ [Register h1 ["ep=b"; "d=x"]%string (lf [])])) (observe empty_rd Tick)) = Created 2.
 Proof. vm_compute. repeat split. Qed.
+(* the abstract directory on the same history: same answers; two entries, written at 50 s (the update) and at 0 s *)
+Example C20_demo_spec :
+  d_run empty_dir demo = [Created 1; Created 2; Tick; Changed; Err BadRequest; Tick] /\
+  map (fun e => (e_key e, e_loc e, e_lt e, e_written e)) (d_entries (d_run_state empty_dir demo))
+    = [(("a", None), 1, 60, 50000000); (("b", Some "x"), 2, 90000, 0)]%string /\
+  d_now (d_run_state empty_dir demo) = 124999999 /\ Forall nonneg_time demo.
+Proof. vm_compute. repeat split; repeat constructor; discriminate. Qed.
 Example C20_reachable_nonvacuous : reachable (run_state empty_rd demo) /\ is_4xx (Err BadRequest) = true.
 Proof. split; [exists demo; reflexivity|reflexivity]. Qed.
 
@@ -161,12 +204,12 @@ Example C20_valueless_parameters_rejected_cleanly :
   snd (step st (UpdatePost ["1"; ""]%string h1 ["base=coap://h1"]%string nobody)) = Changed /\
   r_base_explicit (obj st 0) = false /\ r_base_explicit (obj (fst (step st (UpdatePost ["1"; ""]%string h1 ["base=coap://h1"]%string nobody))) 0) = true.
 Proof. vm_compute. repeat split. Qed.
-(* Witness of the open finding (known_findings.d/C20.json), modelled as the code behaves: *)
-(* with several criteria only the last one is applied (late-binding closures): ep=a&d=x lists b as well, ep=a&count=5 lists nothing *)
-Example C20_multi_criteria_lookup_refuted :
-  let st := run_state empty_rd [Register h1 ["ep=a"; "d=x"]%string (lf []); Register h1 ["ep=b"; "d=x"]%string (lf [])] in
-  ep_lookup st ["ep=a"; "d=x"]%string None = ep_lookup st ["d=x"]%string None /\
-  ep_lookup st ["ep=a"; "d=x"]%string None <> ep_lookup st ["ep=a"]%string None /\
-  ep_lookup st ["ep=a"; "count=5"]%string None = Content ""%string /\
-  ep_lookup st ["count=5"; "ep=a"]%string None = ep_lookup st ["ep=a"]%string None.
-Proof. vm_compute. repeat split. discriminate. Qed.
+(* several criteria are all applied, in any order, and pagination comes last (was the open finding until 212d645) *)
+Example C20_multi_criteria_lookup :
+  let st := run_state empty_rd [Register h1 ["ep=a"; "d=x"]%string (lf []); Register h1 ["ep=b"; "d=x"]%string (lf []); Register h1 ["ep=a"; "d=y"]%string (lf [])] in
+  ep_lookup st ["ep=a"; "d=x"]%string None = Content "</reg/1/>;ep=""a"";d=""x"";base=""coap://h1"";rt=""core.rd-ep"""%string /\
+  ep_lookup st ["d=x"; "ep=a"]%string None = ep_lookup st ["ep=a"; "d=x"]%string None /\
+  ep_lookup st ["ep=a"; "count=5"]%string None = ep_lookup st ["ep=a"]%string None /\
+  ep_lookup st ["ep=a"; "count=1"; "page=1"]%string None = Content "</reg/3/>;ep=""a"";d=""y"";base=""coap://h1"";rt=""core.rd-ep"""%string /\
+  ep_lookup st ["ep=a"; "ep=b"]%string None = Content ""%string.
+Proof. vm_compute. repeat split. Qed.
